@@ -55,6 +55,32 @@ pub fn parse_tlc_line(line: &str, tag: &str) -> Option<Value> {
     serde_json::from_str(&inner).ok()
 }
 
+/// Streaming variant: only the tagged lines whose running index belongs to the shard are parsed.
+/// Returns (total number of tagged lines, parsed lines of this shard).
+pub fn read_tlc_lines_sharded(path: &str, tag: &str, shard: (u64, u64)) -> (usize, Vec<Value>) {
+    use std::io::BufRead;
+    let f = std::fs::File::open(path).unwrap_or_else(|e| {
+        eprintln!("cannot read {path}: {e}");
+        std::process::exit(2)
+    });
+    let prefix = format!("<<\"{tag}\", ");
+    let mut n = 0usize;
+    let mut out = vec![];
+    for line in std::io::BufReader::with_capacity(1 << 20, f).lines() {
+        let Ok(line) = line else { continue };
+        if !line.starts_with(&prefix) {
+            continue;
+        }
+        if (n as u64) % shard.1 == shard.0 {
+            if let Some(v) = parse_tlc_line(&line, tag) {
+                out.push(v);
+            }
+        }
+        n += 1;
+    }
+    (n, out)
+}
+
 pub fn read_tlc_lines(path: &str, tag: &str) -> Vec<Value> {
     let text = std::fs::read_to_string(path).unwrap_or_else(|e| {
         eprintln!("cannot read {path}: {e}");
